@@ -19,16 +19,18 @@ RULE = ("diagram plots: 1-4 diagrams (single array or list) of 0-6 points from l
         "uniform modes, infinite deaths p=0.2, empty diagrams, every combination of plot_only (None, [], in-range, "
         "negative, out-of-range), labels (None, string incl. strings shorter than the indices, list of equal/shorter/"
         "longer length), title, xy_range (None, [], proper, degenerate, inverted), diagonal, lifetime, legend, ax given "
-        "(other axes current) or None; matching plots: finite diagram pairs of 0-6 points (either side empty), the "
-        "matching RETURNED by the real bottleneck/wasserstein(matching=True), optionally with added (-1,-1), i=-1, "
+        "(other axes current) or None; integer-valued diagrams travel as int64 arrays half of the time; matching plots: "
+        "diagram pairs of 0-6 points (either side empty), in 45% of the pairs with 1-3 points of infinite death inserted anywhere "
+        "(also a diagram of infinite points only), the "
+        "matching RETURNED by the real bottleneck/wasserstein(matching=True) for exactly these diagrams, optionally with added (-1,-1), i=-1, "
         "j=-1 rows, tied distances, out-of-range indices, an empty matching; 2-D landscape plots from diagrams and "
-        "from explicit critical pairs/values with depth_range. Non-trivial = no error and (>=2 finite points drawn | "
+        "from explicit critical pairs/values with depth_range None / [] / a list of depths / a `range` object. Non-trivial = no error and (>=2 finite points drawn | "
         ">=1 segment drawn | >=1 landscape line); distinct by digest of the full case")
 ASSUMPTIONS = [
     "diagrams are (n,2) float arrays with finite births and deaths finite or +inf (the non-finite value the routine treats); "
     "NaN/-inf/extra columns are outside the model",
-    "matching plots receive finite diagrams (the distance functions drop infinite points, so the indices of a returned "
-    "matching refer to the finite sub-diagrams); plot_only / matching indices are Python ints",
+    "the rows of a matching index the points with FINITE death of each diagram, in order (what bottleneck/wasserstein return: "
+    "both drop the other points before numbering; C06 owns that); plot_only / matching indices are Python ints",
     "label lists shorter than the number of plotted diagrams make `zip` drop diagrams (modelled; outside the statement's "
     "quantifier: one label per diagram is the documented contract)",
     "numeric comparison 1e-6 relative to the largest magnitude in the figure (the code works in float32); scatter "
@@ -38,6 +40,12 @@ ASSUMPTIONS = [
     "fresh axes (no pre-existing artists); `show`, `size`, `ax_color`, `colormap` only checked as read-back style, not modelled",
 ]
 TOL = 1e-6
+# theorems that carry a clause of the statement (helper lemmas, rfl restatements such as landscape_simple_instances,
+# drawPt_cases, finitePart_cons, and the concrete counterexamples for the pre-fix code are not in this list)
+CORE_THEOREMS = ["selected_spec", "scatters_eq", "one_scatter_per_diagram", "inf_line_inside", "limits_contain_points",
+                 "xy_range_respected", "labels_title_legend", "diagram_plot_on_given_axes", "segments_match_rows",
+                 "segments_match_rows_wasserstein", "landscape_lines_spec", "plotDiagrams_succeeds",
+                 "bottleneckMatching_succeeds", "wassersteinMatching_succeeds"]
 LABEL_POOL = ["dgm1", "dgm2", "X", "Y", "abc", "H0", "noise", "signal_2", "Zq", "p", "LongerLabel"]
 TITLE_POOL = ["mytitle", "Persistence", "A", "diagram_7"]
 
@@ -316,9 +324,18 @@ def clauses_dgms(case, status, tgt, oth):
         bad.append("title %r, requested %r" % (tgt["title"], case["title"]))
     if tgt["xlabel"] != "Birth" or tgt["ylabel"] != ("Lifetime" if life else "Death"):
         bad.append("axis labels %r" % ((tgt["xlabel"], tgt["ylabel"]),))
-    expleg = ((["$\\infty$"] if anyinf else []) + labs) if case["legend"] else None
-    if tgt["legend"] != expleg:
-        bad.append("legend %r, requested %r" % (tgt["legend"], expleg))
+    # legend: drawn iff requested; an infinity entry iff some plotted death is infinite; one entry per scatter, in the
+    # order of the scatters, with the requested text.  WHERE the infinity entry stands among them is not part of the
+    # statement (it follows the order of the ax.plot / ax.scatter calls; the correspondence compares it exactly)
+    if (tgt["legend"] is not None) != bool(case["legend"]):
+        bad.append("legend %s, requested legend=%r" % ("absent" if tgt["legend"] is None else "drawn", case["legend"]))
+    elif tgt["legend"] is not None and "$\\infty$" not in labs:
+        n_inf = tgt["legend"].count("$\\infty$")
+        entries = [e for e in tgt["legend"] if e != "$\\infty$"]
+        if n_inf != (1 if anyinf else 0):
+            bad.append("legend %r: %d infinity entries, infinite deaths plotted: %s" % (tgt["legend"], n_inf, anyinf))
+        elif entries != labs:
+            bad.append("legend entries %r, requested one per scatter: %r" % (tgt["legend"], labs))
     if case["given"] and not pristine(oth):
         bad.append("artists or settings landed on the axes that was NOT given")
     return bad
@@ -326,8 +343,9 @@ def clauses_dgms(case, status, tgt, oth):
 
 def expected_segments(case):
     """the statement's segments: one per row that is not (-1,-1), computed independently of code and model"""
-    d1 = case["d1"] or [[0.0, 0.0]]
-    d2 = case["d2"] or [[0.0, 0.0]]
+    # the rows index the points with FINITE death (what bottleneck / wasserstein number); (0,0) if there is none
+    d1 = [p for p in case["d1"] if math.isfinite(p[1])] or [[0.0, 0.0]]
+    d2 = [p for p in case["d2"] if math.isfinite(p[1])] or [[0.0, 0.0]]
     segs = []
     for k, (i, j, _) in enumerate(case["rows"]):
         i, j = int(i), int(j)
@@ -366,7 +384,7 @@ def clauses_match(case, status, tgt, oth):
     rest = [l for l in tgt["lines"] if not any(l is g for g in guides)]
     if len(rest) != len(segs):
         bad.append("%d segments on the given axes for %d rows that are not (-1,-1)" % (len(rest), len(segs)))
-    S = max([abs(v) for d in (case["d1"], case["d2"]) for p in d for v in p] + [1e-300])
+    S = max([abs(v) for d in (case["d1"], case["d2"]) for p in d for v in p if math.isfinite(v)] + [1e-300])
     used = [False] * len(rest)
     found = {}
     for (k, xs, ys) in segs:
@@ -389,6 +407,15 @@ def clauses_match(case, status, tgt, oth):
             bad.append("non-bottleneck rows are styled differently from each other")
     if len(tgt["scatters"]) != 2:
         bad.append("%d scatter collections, expected the two diagrams" % len(tgt["scatters"]))
+    else:
+        # the scatter plot still shows ALL points of a non-empty diagram, infinite deaths on the infinity line
+        for k, d in enumerate((case["d1"], case["d2"])):
+            if d and len(tgt["scatters"][k]["pts"]) != len(d):
+                bad.append("scatter %d shows %d points, the diagram has %d" % (k, len(tgt["scatters"][k]["pts"]), len(d)))
+        anyinf = any(math.isinf(p[1]) for d in (case["d1"], case["d2"]) for p in d)
+        n_inflines = len([l for l in tgt["lines"] if l["label"] == "$\\infty$"])
+        if anyinf != (n_inflines == 1):
+            bad.append("%d infinity lines, infinite deaths present: %s" % (n_inflines, anyinf))
     return bad
 
 
@@ -467,7 +494,7 @@ def arr_any(d):
 def run_dgms(case):
     vis = common.pm("visuals")
     _, plt = _plt()
-    dg = [arr(d) for d in case["dgms"]]
+    dg = [arr_any(d) for d in case["dgms"]]         # integer-valued diagrams travel as int64 arrays half of the time
     arg = dg[0] if case["single"] else dg
     kw = dict(plot_only=case["plot_only"], title=case["title"],
               xy_range=([] if case.get("xy_empty") else case["xy_range"]), labels=case["labels"],
@@ -521,6 +548,16 @@ def gen_match_case(ctx):
         d2 = []
     elif u < 0.19:
         d1, d2 = [], []
+    # points with infinite death in 45% of the pairs: anywhere in the diagram (so that the finite sub-diagram's numbering
+    # differs from the diagram's), also a diagram made of infinite points only
+    v = r.random()
+    if v < 0.45:
+        for d in (d1, d2):
+            if r.random() < 0.75:
+                for _ in range(r.randint(1, 3)):
+                    d.insert(r.randint(0, len(d)), [float(ctx.gen.coord(mode)), math.inf])
+        if r.random() < 0.1:
+            d1 = [[float(ctx.gen.coord(mode)), math.inf] for _ in range(r.randint(1, 2))]
     kind = r.choice(["bn", "ws"])
     src = r.choice(["bn", "ws"]) if r.random() < 0.25 else kind
     with warnings.catch_warnings():
@@ -530,7 +567,8 @@ def gen_match_case(ctx):
         else:
             _, m = common.pm("wasserstein").wasserstein(arr(d1), arr(d2), matching=True)
     rows = [[int(a), int(b), float(c)] for a, b, c in np.asarray(m, dtype=float).reshape(-1, 3).tolist()]
-    n1, n2 = max(1, len(d1)), max(1, len(d2))
+    n1 = max(1, sum(1 for p in d1 if math.isfinite(p[1])))
+    n2 = max(1, sum(1 for p in d2 if math.isfinite(p[1])))
     edits = []
     if r.random() < 0.35:
         for _ in range(r.randint(1, 3)):
@@ -600,8 +638,19 @@ def gen_land_case(ctx):
         k = r.choice([1, 2, 5])
         case["start"], case["stop"] = 0.5, 0.5 + r.choice([0.0, 1.0, 3.25])
         case["values"] = [[float(abs(ctx.gen.coord("half"))) for _ in range(k)] for _ in range(r.randint(1, 3))]
-    case["depth_range"] = r.choice([None, None, [0], [1, 2], [0, 5], []])
+    case["depth_range"] = r.choice([None, None, [0], [1, 2], [0, 5], [], {"range": [0, 2]}, {"range": [1, 4]}, {"range": [2, 2]}])
     return case
+
+
+def depth_list(dr):
+    """the depths a depth_range selects, as the list the model takes (a `range` object is passed to the code as such)"""
+    if isinstance(dr, dict):
+        return list(range(*dr["range"]))
+    return dr
+
+
+def depth_arg(dr):
+    return range(*dr["range"]) if isinstance(dr, dict) else dr
 
 
 def build_landscape(case):
@@ -628,14 +677,14 @@ def run_land(case):
     land.compute_landscape()
     if case["kind"] == "exact":
         data = [[[float(a), float(b)] for a, b in c] for c in land.critical_pairs]
-        line = "plot.land.exact %s %s" % (enc(data), enc(case["depth_range"]))
+        line = "plot.land.exact %s %s" % (enc(data), enc(depth_list(case["depth_range"])))
     else:
         if np.asarray(land.values).dtype.kind not in "fiu":
             return None                       # "Bad choice of grid, values is empty": nothing to plot
         data = [[float(v) for v in row] for row in np.asarray(land.values, dtype=float)]
         line = "plot.land.approx %s %s %s %s" % (enc(float(land.start)), enc(float(land.stop)), enc(data),
-                                                  enc(case["depth_range"]))
-    dr = case["depth_range"]
+                                                  enc(depth_list(case["depth_range"])))
+    dr = depth_arg(case["depth_range"])
     res = with_axes(case["given"], lambda ax: L.plot_landscape_simple(
         land, alpha=case["alpha"], padding=case["padding"], title=case["title"], ax=ax, labels=case["labels"],
         depth_range=dr))
@@ -645,7 +694,7 @@ def run_land(case):
 def clauses_land(case, data, startstop, status, tgt, oth):
     if status != "ok":
         return []
-    dr = case["depth_range"]
+    dr = depth_list(case["depth_range"])
     keep = [k for k in range(len(data)) if (not dr) or k in dr]
     bad = []
     if len(tgt["lines"]) != len(keep):
@@ -725,7 +774,12 @@ def corpus():
             dict(mb, kind="ws", d1=[], d2=[], rows=[[0, 0, 0.0]]),
             dict(mb, kind="bn", d1=[], d2=[], rows=[[0, 0, 0.0]]),
             dict(mb, kind="bn", d1=[[0.0, 1.0]], d2=[[1.0, 3.0]], rows=[]),
-            dict(mb, kind="bn", d1=[[0.0, 2.0], [1.0, 3.0]], d2=[[1.0, 3.0]], rows=[[0, -1, 1.0], [1, 0, 1.0]], given=False)]
+            dict(mb, kind="bn", d1=[[0.0, 2.0], [1.0, 3.0]], d2=[[1.0, 3.0]], rows=[[0, -1, 1.0], [1, 0, 1.0]], given=False),
+            # 3ef18e2: the row (0,0) returned for these diagrams must be drawn from (1,2), not from (0,inf)
+            dict(mb, kind="bn", d1=[[0.0, math.inf], [1.0, 2.0]], d2=[[1.0, 2.1]], rows=[[0, 0, 0.1]]),
+            dict(mb, kind="ws", d1=[[0.0, math.inf], [1.0, 2.0]], d2=[[1.0, 2.1]], rows=[[0, 0, 0.1]]),
+            dict(mb, kind="ws", d1=[[0.0, math.inf]], d2=[[1.0, 2.0], [3.0, math.inf]], rows=[[-1, 0, 0.5]]),
+            dict(mb, kind="bn", d1=[[0.0, math.inf]], d2=[], rows=[[-1, -1, 0.0]])]
     return out
 
 
@@ -772,6 +826,8 @@ def run(ctx):
             ctx.count("xy_range:" + ("given" if case["xy_range"] else "auto"))
             if any(math.isinf(p[1]) for d in case["dgms"] for p in d):
                 ctx.count("has_inf")
+            if any(arr_any(d).dtype.kind == "i" for d in case["dgms"]):
+                ctx.count("dgms:integer_dtype_array")
             if isinstance(case["labels"], list) and not case["plot_only"] and len(case["labels"]) < len(case["dgms"]):
                 ctx.count("labels_shorter_than_diagrams(outside quantifier)")
             if not isinstance(model, str) and (model[1][0] == model[1][1] or model[2][0] == model[2][1]):
@@ -784,6 +840,10 @@ def run(ctx):
             ctx.count("rows:src=" + case["src"])
             if not case["d1"] or not case["d2"]:
                 ctx.count("empty_diagram")
+            if any(math.isinf(p[1]) for d in (case["d1"], case["d2"]) for p in d):
+                ctx.count("match:has_inf")
+                if any(d and math.isinf(d[0][1]) for d in (case["d1"], case["d2"])):
+                    ctx.count("match:inf_point_before_finite_ones")
             if any(x[0] == -1 and x[1] != -1 for x in case["rows"]):
                 ctx.count("rows:has_i=-1")
             diff = compare_fig(model, status, tgt, oth, case["given"], sty)
@@ -796,6 +856,7 @@ def run(ctx):
                              failed or "none"), case, failed, lines[k], diff):
                 break
     ctx.extra["line_coverage"] = cov.summary()
+    ctx.extra["core_theorems"] = CORE_THEOREMS
     if rs["found"] < 3:
         landscapes(ctx, rs)
     if rs["silent"]:
@@ -817,7 +878,22 @@ def report(ctx, rs, what, case, failed, line, diff):
     return rs["found"] < 3
 
 
+def slice_probe(ctx):
+    """DOCUMENTED LIMIT, shown on the real code: the docstrings of the landscape plots give `depth_range: slice`, but the
+    code tests `depth not in depth_range`, which a slice does not support - a `slice` raises TypeError, a `range` or a
+    list of depths is what works (and what the generator uses).  Recorded, not a violation of this statement."""
+    L = common.pm("landscapes")
+    land = L.PersLandscapeExact(dgms=[arr([[0.0, 4.0], [1.0, 3.0], [1.5, 2.5]])], hom_deg=0)
+    out = {}
+    for name, dr in (("slice(0, 2)", slice(0, 2)), ("range(0, 2)", range(0, 2)), ("[0, 1]", [0, 1])):
+        status, tgt, oth, _, _ = with_axes(True, lambda ax: L.plot_landscape_simple(land, ax=ax, depth_range=dr))
+        out[name] = status if status != "ok" else "ok: %d lines" % len(tgt["lines"])
+    ctx.extra["documented_limit_depth_range_forms"] = out
+    ctx.count("land:depth_range=slice -> " + out["slice(0, 2)"])
+
+
 def landscapes(ctx, rs):
+    slice_probe(ctx)
     cases = [gen_land_case(ctx) for _ in range(ctx.n(50, 800))]
     done = []
     for case in cases:
@@ -831,6 +907,7 @@ def landscapes(ctx, rs):
     for (case, line, data, ss, (status, tgt, oth, sty, _w)), model in zip(done, answers):
         ctx.case(case, status == "ok" and isinstance(model, list) and len(model) >= 1, sample_every=53)
         ctx.count("land:%s:%s" % (case["kind"], status))
+        ctx.count("land:depth_range:" + ("none" if case["depth_range"] is None else "range" if isinstance(case["depth_range"], dict) else "list"))
         diff = compare_land(model, status, tgt, oth, case["given"], sty, case)
         failed = clauses_land(case, data, ss, status, tgt, oth)
         ctx.test("statement_clauses:land", not failed)
@@ -853,6 +930,9 @@ def replay(ctx, rep):
         status, tgt, oth, _, _ = run_dgms(case)
         failed = clauses_dgms(case, status, tgt, oth)
     elif case["op"] == "match":
+        for d in (case["d1"], case["d2"]):
+            for p in d:
+                p[1] = math.inf if p[1] in ("inf", "Infinity") else p[1]
         status, tgt, oth, _, _ = run_match(case)
         failed = clauses_match(case, status, tgt, oth)
     else:
@@ -866,7 +946,9 @@ def replay(ctx, rep):
 
 
 MANIFEST = {
-    "text": "Proof: 21 Lean theorems about a pure model of plot_diagrams / bottleneck_matching / wasserstein_matching (arguments -> "
+    "text": "Proof: 28 Lean theorems (14 of them core: each carries a clause of the statement; the rest are helpers, rfl "
+            "restatements and three decide-proved counterexamples for the code before its repairs) about a pure model of "
+            "plot_diagrams / bottleneck_matching / wasserstein_matching / the 2-D landscape plots (arguments -> "
             "list of abstract artists tagged with the axes they land on, limits, labels, title, legend flag) over any linear ordered "
             "field and any float32 cast, for diagrams and matchings of every size and every option combination: scatters_eq / "
             "one_scatter_per_diagram (one collection per plotted diagram, in order, coordinates (b,d) or (b,d-b), infinite deaths at "
@@ -874,23 +956,32 @@ MANIFEST = {
             "drawn exactly once iff some plotted death is infinite), limits_contain_points (no xy_range; lifetime mode under b <= d, "
             "with lifetime_guard_needed showing the guard is necessary), xy_range_respected (x exactly; y exactly, in lifetime mode "
             "only its height), labels_title_legend + selected_spec (plot_only as Python indexing; each plotted diagram carries the "
-            "label requested for it), diagram_plot_on_given_axes, segments_match_rows / _wasserstein (one segment per row that is not "
-            "(-1,-1), in row order, ALL on the given axes, joining the two points or a point and ((b+d)/2,(b+d)/2) from c*c = 1/2, "
-            "first-arg-max row styled distinctly; real_constants: cos/sin(pi/4) meet the hypotheses), *_succeeds (the model rejects "
+            "label requested for it), diagram_plot_on_given_axes, segments_match_rows / _wasserstein - now for diagrams WITH points "
+            "of infinite death: the scatter plot shows every point, and there is one segment per row that is not "
+            "(-1,-1), in row order, ALL on the given axes, joining points of the finite-death sub-diagrams (what the rows of a "
+            "returned matching index; (0,0) placeholder when there is none) or such a point and ((b+d)/2,(b+d)/2) from c*c = 1/2, "
+            "first-arg-max row styled distinctly; real_constants: cos/sin(pi/4) meet the hypotheses - landscape_lines_spec (the 2-D "
+            "landscape plots add exactly one line per depth kept by depth_range, in depth order, through that depth's points, "
+            "labelled lambda_k, on the given axes), *_succeeds (the model rejects "
             "only invalid indices / nothing to draw), and decide-proved counterexamples for the code before 64802c3 (plt.plot: a row "
-            "with i = -1 lands on pyplot's current axes) and before 59a7acc (single string label indexed by plot_only). The model is "
+            "with i = -1 lands on pyplot's current axes), before 59a7acc (single string label indexed by plot_only) and before "
+            "3ef18e2 (rows indexed the unfiltered diagrams: [(0,inf),(1,2)] vs [(1,3)], row (0,0) drawn from (0,inf)). The model is "
             "tied to the code on every run by reading every artist, limit, label, title and legend text back from BOTH axes of a "
             "two-axes Agg figure (the other axes current, or ax=None) and comparing with the model run at Rat with a real "
-            "round-to-nearest-even float32 cast; the statement's clauses are additionally evaluated in plain Python on every case.",
+            "round-to-nearest-even float32 cast (legend order included); the statement's clauses are additionally evaluated in plain "
+            "Python on every case - there the legend is checked as 'an infinity entry iff needed + one entry per scatter with the "
+            "requested text', so a mere reordering of the plot calls is a correspondence break, not a violation.",
     "note": "Trusted: Lean kernel + Mathlib, axioms propext/Classical.choice/Quot.sound; the correspondence harness; matplotlib as a "
             "contract (an artist added to an Axes is drawn there; Axes.legend lists labelled artists in insertion order; set_xlim "
             "stores its arguments unless they coincide). Not modelled: the 3-D landscape plots, colormap/style side effects "
-            "(plt.style.use), size/ax_color beyond a read-back check, show, rendering. The 2-D landscape plots have a model (one "
-            "labelled line per depth through the critical points / over linspace(start,stop,len)) and a correspondence, no theorem. "
-            "[T] only: float32 rounding inside the range computation (1e-6 relative), legend texts, styles. Outside the statement, "
-            "reported: bottleneck()/wasserstein() index the inf-FILTERED diagrams, so plotting a returned matching over diagrams that "
-            "still contain infinite points draws shifted points (the matching stream uses finite diagrams); plot_diagrams and "
+            "(plt.style.use), size/ax_color beyond a read-back check, show, rendering. "
+            "[T] only: float32 rounding inside the range computation (1e-6 relative), legend texts, styles, integer-dtype arrays. "
+            "That the rows returned by bottleneck()/wasserstein() number the finite-death points is those functions' contract (C06); "
+            "the matching stream passes diagrams with infinite points together with the matching the real functions return for them. "
+            "Outside the statement, reported: plot_diagrams and "
             "bottleneck_matching raise ValueError when every plotted diagram is empty (no range), wasserstein_matching does not; a label "
-            "list shorter than the diagrams silently drops diagrams (zip).",
+            "list shorter than the diagrams silently drops diagrams (zip); DOCUMENTED LIMIT shown on the real code: the landscape "
+            "plots' docstrings say `depth_range: slice`, but a slice raises TypeError (`depth not in depth_range`) - a list of depths "
+            "or a `range` is what works and what is generated.",
     "technique": "Lean 4 theorems over a hand-written artist-list model + differential read-back of matplotlib artists on two axes",
 }
